@@ -46,13 +46,21 @@ fn history<X: Sx>(ctx: &Ctx, idx: u64, l: usize, steps: usize, exhaustive_positi
     }
     for _ in 0..steps {
         let i = rand_range(&mut r, l);
-        let kind = rand_range(&mut r, 7);
+        let kind = rand_range(&mut r, 8);
         plan.push(match kind {
             0 => (i, msgs[i].clone(), "same-as-old"), // placeholder, refreshed below
             1 => (i, vec![], "empty"),
             2 => (i, rand_bytes(&mut r, 300), "long"),
             3 => (i, b"A".to_vec(), "revisit-A"),
             4 => (i, b"B".to_vec(), "revisit-B"),
+            6 => {
+                // exactly 32 octets: the size of a scalar / digest; with a leading byte below 0x73 it is also a canonical scalar encoding
+                let mut v = rand_bytes(&mut r, 32);
+                if rand_range(&mut r, 2) == 0 {
+                    v[0] %= 0x73;
+                }
+                (i, v, "scalar-sized")
+            }
             5 => {
                 // lengths around the 8-, 16- and 17-bit boundaries of any length prefix
                 let n = [255usize, 256, 65535, 65536, 65537, 131072][rand_range(&mut r, 6)];
